@@ -11,7 +11,7 @@ name the source function, and the original call is remembered in `body["inlined"
 import copy
 from .facts import Inst
 
-MAX_DEPTH = 8
+MAX_DEPTH = 12
 MAX_BLOCKS = 4000
 
 
@@ -80,12 +80,13 @@ class NInst(Inst):
 
 HOF_PREFIX = ("core::option::Option::", "core::result::Result::", "core::iter::", "<core::iter::", "core::ops::function::",
               "<core::slice::iter::", "core::slice::", "<alloc::collections::btree::map::", "<alloc::vec::", "<core::option::", "<core::ops::range::",
-              "<core::array::", "core::array::", "<std::collections::hash::map::", "<&mut ", "<core::result::")
-WS_CLOSURE = "{closure@signal_hook"
+              "<core::array::", "core::array::", "<std::collections::hash::map::", "<&mut ", "<core::result::", "core::sync::atomic::Atomic::<", "core::ops::try_trait::", "<core::ops::try_trait::")
+WS_CLOSURE_RE = __import__("re").compile(r"\{closure@<?signal_hook")
 import re as _re
 # std adapters whose only job is to forward a value between Result/Option shapes (`?` desugaring, identity conversions)
 TRANSPARENT_RE = _re.compile(r"^<core::(result::Result|option::Option)<.*> as core::ops::try_trait::(Try|FromResidual<.*>)>::(branch|from_residual|from_output)$"
-                             r"|^<(.*) as core::convert::From<\2>>::from$|^<.* as core::convert::Into<.*>>::into$")
+                             r"|^<(.*) as core::convert::From<\2>>::from$|^<.* as core::convert::Into<.*>>::into$"
+                             r"|^core::result::Result::<.*>::(ok|err)$|^core::option::Option::<.*>::(ok_or|copied|cloned)$")
 
 
 def default_inlinable(F, callee, hof=False):
@@ -95,7 +96,7 @@ def default_inlinable(F, callee, hof=False):
         return True
     if hof and TRANSPARENT_RE.match(callee.name):
         return True
-    if hof and WS_CLOSURE in callee.name and callee.name.startswith(HOF_PREFIX):
+    if hof and WS_CLOSURE_RE.search(callee.name) and callee.name.startswith(HOF_PREFIX):
         # a std combinator instantiated with a workspace closure: `opt.map(|x| ..)`, `iter.for_each(|a| ..)`; its body is ordinary MIR
         return True
     return False
@@ -331,6 +332,39 @@ def _variants_at(F, n, fl, local, at, depth=0):
     return out
 
 
+def _path_discr(n, preds, p, child, L, limit=12):
+    """discriminant of enum local L known at the end of block p because every path into p took a value edge of an earlier switch on
+    discriminant(L) and L was not written since (walks back through single-predecessor blocks)"""
+    blocks = n.body["blocks"]
+    cur = p
+    for _ in range(limit):
+        bl = blocks[cur]
+        t = bl["t"]
+        if t["k"] == "switch" and t["d"]["k"] in ("copy", "move") and not t["d"]["p"]["p"]:
+            dl = t["d"]["p"]["l"]
+            src = None
+            for st in bl["s"]:
+                if st["k"] == "assign" and not st["l"]["p"] and st["l"]["l"] == dl:
+                    src = st["r"]["p"]["l"] if (st["r"]["k"] == "discr" and not st["r"]["p"]["p"]) else None
+            if src == L:
+                hits = [v for v, tg in t["vals"] if tg == child]
+                if len(hits) == 1 and t["else"] != child:
+                    return hits[0]
+                return None
+        for st in bl["s"]:
+            if st["k"] in ("assign", "setdiscr") and st["l"]["l"] == L and not (st["k"] == "assign" and st["l"]["p"] and False):
+                return None
+        if t["k"] == "call" and t.get("dest") and t["dest"]["l"] == L:
+            return None
+        if t["k"] in ("call", "drop") and any(a.get("k") == "move" and a["p"]["l"] == L for a in t.get("args", [])):
+            return None
+        if len(preds[cur]) != 1:
+            return None
+        child = cur
+        cur = preds[cur][0]
+    return None
+
+
 def thread_jumps(F, n, rounds=12):
     """jump threading: a switch on `discriminant(L)` (or on a bool local L) whose value is fixed by the predecessor the control came from
     (`L = Ok(..)` on one edge, `L = Err(..)` on the other, joined only to be taken apart again — the shape `?` and inlined helpers
@@ -390,7 +424,10 @@ def thread_jumps(F, n, rounds=12):
                     continue
                 vs = _variants_at(F, n, fl, target, (p, len(blocks[p]["s"]) + 1))
                 if len(vs) != 1 or None in vs:
-                    continue
+                    pv = _path_discr(n, preds, p, head, target)
+                    if pv is None:
+                        continue
+                    vs = {pv}
                 v = vs.pop()
                 tgt = t["else"]
                 for val, tg in t["vals"]:
